@@ -192,6 +192,11 @@ def surface(npts):
             mesh = meshgen.build([meshgen.vec3(*p) for p in P], (), faces)
             n = 1 + sx.choice("n_pts", npts)
             normals = sx.flag("return_normals")
+            if normals and sx.flag("mesh_carries_normals_of_an_earlier_geometry"):
+                # normals are those of the CURRENT faces: a face attribute left from before the mesh was moved must not matter
+                stale = mesh.faces.create_attribute("normals", float, 3, dense=True)
+                for f in range(len(faces)):
+                    stale[f] = _arr(sx, [sx.real("stale%d_%d" % (f, k)) for k in range(3)])
             rnd = shims.RandomStub(sx)
             with shims.rebound(S, np=_np_proxy(sx, rnd), random=rnd.random, choice=rnd.choice):
                 try:
@@ -259,6 +264,31 @@ def bezier_curve(orders, dim=2):
             sx.check_eq(v0[k], P[0][k], "a Bezier curve interpolates its first control point", tol=1e-9)
             sx.check_eq(v1[k], P[-1][k], "a Bezier curve interpolates its last control point", tol=1e-9)
     return h
+
+
+INT_NETS = [[(0, 0), (1, 3), (4, 1)], [(0, 0, 0), (2, 5, -1), (3, -2, 4), (7, 1, 1)]]
+
+
+def bezier_int(sx):
+    """control points given with integer entries (tuples of ints, int64 arrays): same Bernstein polynomial"""
+    from mouette.splines import bezier as B
+    net = INT_NETS[sx.choice("net", len(INT_NETS))]
+    form = sx.choice("form", 3)
+    pts = [[tuple(p) for p in net], [list(p) for p in net], [np.array(p, dtype=np.int64) for p in net]][form]
+    order, dim = len(net) - 1, len(net[0])
+    t = sx.real("t")
+    sx.assume(symx.And(t >= 0, t <= 1))
+    tag = " [integer control points as %s]" % ["tuples", "lists", "int64 arrays"][form]
+    try:
+        # plain tuples / lists are control points for BezierCurve (which wraps them in Vec); arrays also go to de_casteljau directly
+        val = B.BezierCurve(pts).evaluate(t) if form < 2 or sx.flag("through_BezierCurve") else B.de_casteljau(pts, t)
+    except Exception as e:
+        sx.check(False, "de_casteljau accepts every parameter in [0,1]" + tag, detail=repr(e))
+        return
+    for k in range(dim):
+        bern = sum(_binom(order, i) * t ** i * (1 - t) ** (order - i) * net[i][k] for i in range(order + 1))
+        sx.check_eq(val[k], bern, "de Casteljau evaluation equals the Bernstein polynomial of the control points" + tag, tol=1e-9)
+    sx.check([tuple(int(x) for x in p) for p in pts] == [tuple(p) for p in net], "de_casteljau leaves its control points unchanged" + tag)
 
 
 def bezier_hull(order):
@@ -398,6 +428,7 @@ def _obligations(tier):
         Ob("polyline", polyline(npts), covers=COVERS, split=4, note="sample_polyline on a 2-edge polyline with symbolic coordinates"),
         Ob("surface", surface(1 if q else 2), covers=COVERS, split=4, note="sample_surface on a planar 2-triangle surface with symbolic coordinates"),
         Ob("bezier-curve", bezier_curve([1, 2, 3] if q else [1, 2, 3, 4, 5]), covers=COVERS, split=3, note="de Casteljau = Bernstein, end points, range check"),
+        Ob("bezier-int", bezier_int, covers=COVERS, note="integer-typed control points, symbolic parameter"),
         Ob("bezier-patch", bezier_patch(2, 2) if q else bezier_patch(3, 3), covers=COVERS, note="patch = tensor product, corners"),
         Ob("bezier-patch-wide", bezier_patch(2, 3), covers=COVERS, note="2x3 control net (more columns than rows)"),
         Ob("bezier-patch-tall", bezier_patch(3, 2), covers=COVERS, note="3x2 control net (more rows than columns)"),
